@@ -12,7 +12,7 @@ TRUSTED = "Trusted base: TLC 1.8, numpy/scipy, OpenMDAO's compute_totals assembl
 CHECKS = {
     "C03": (
         "model_checking",
-        "TLC complete state graph of OASLifecycle (run strategies, guarded refactors, caches, Jacobian stores) over the component table extracted from the tree + replay of emitted histories (depth-bounded, pair-pattern, model counterexamples) into real Problems (live vs fresh) + component-level special-value histories + TraceLifecycle validation of recorded executions (own histories and the repository's optimisation tests as drivers)",
+        "TLC complete state graph of OASLifecycle (run strategies, guarded refactors, caches, Jacobian stores) over the component table extracted from the tree + replay of emitted histories (depth-bounded, pair-pattern, model counterexamples) into real Problems (live vs fresh) + component-level histories (every component alone: model inputs, then one input zeroed or changed, outputs and Jacobians vs a fresh instance) + TraceLifecycle validation of recorded executions (own histories and the repository's optimisation tests as drivers)",
         "OASLifecycle is finite-state over three design points, so TLC explores every reachable abstract state and emits model-level counterexamples; every API-call history up to the depth bound (plus random long ones) is replayed on real aero / aerostructural / multipoint / structural Problems and compared with a freshly built Problem after every step.",
         "Bounds: points p0,p1,p2 (differ in every input), q (one input changed), z (one input exactly zero); histories <= 4 sampled to 450 (quick) / <= 6 + 150 random of length 12 sampled to 2500 (thorough) per model kind, every pair-pattern history set X; run; linearise; set Y; run; linearise, run strategies solve_first / residual_first; every component alone at its model inputs then with one input zeroed (outputs and Jacobians vs fresh); tolerances rel 1e-9 outputs, 1e-8 totals; model kinds listed in evidence. " + TRUSTED,
         "5 C03, 3.3, 4.1, 4.4",
@@ -61,7 +61,7 @@ CHECKS = {
     ),
     "C19": (
         "model_checking",
-        "TLC: OASTopology numbering partition + mux/demux bijection, OASLaws.Permute composed with Mirror/Reorder/scaling (1-3 surfaces, mixed-side half models), OASWiring on the connection table of real AeroPoints; replay of permutations, column splits, far-away surfaces, MPhys wrapper groups vs native AeroPoint, mux/demux permutation and Jacobian in fwd and rev",
+        "TLC: OASTopology numbering partition + mux/demux bijection, OASLaws.Permute composed with Mirror/Reorder/scaling (1-3 surfaces, mixed-side half models), OASWiring on the connection table of real AeroPoints; replay of permutations, column splits, far-away surfaces, MPhys wrapper groups (1-3 surfaces; wired explicitly and by promotion as an MPhys scenario does) vs native AeroPoint, mux/demux permutation and Jacobian in fwd and rev",
         "Panel offsets and (de)multiplexer source indices are proved to be partitions/bijections for every surface list in the box; permutation behaviours are replayed (CM renormalised by the first surface's MAC), a full-span surface is split at every interior column, a surface is moved 10..1e6 chords away, and the MPhys solver/funcs groups fed through the spec's permutation must reproduce the native results; mux/demux total Jacobians must equal the spec's permutation matrix in both modes.",
         "<= 3 surfaces in replays; OASWiring for compressible x rotational x ground x user_specified_Sref; MPhys groups wired by hand without the MPI distributor. " + TRUSTED,
         "5 C19, 3.5",
@@ -96,7 +96,7 @@ CHECKS = {
     ),
     "C15": (
         "model_checking",
-        "TLC: KStress exact rational transcription of tube/wingbox stress recovery on pure states (non-negative, rigid motion adds nothing, quadratic scaling, closed forms), the KS shift discipline and KS history cases (the aggregate depends on the current stresses only) (1308 cases); every state through the real components; random fields and KS bounds up to 1e12 Pa, half of them after another stress state on the same instance",
+        "TLC: KStress exact rational transcription of tube/wingbox stress recovery on pure states (non-negative, rigid motion adds nothing, quadratic scaling, closed forms), the KS shift discipline for loose and very tight aggregation parameters, KS history cases (the aggregate depends on the current stresses only) and the upper-skin strength knock-down factor (1636 cases); every state through the real components; random fields and KS bounds up to 1e12 Pa, half of them after another stress state on the same instance",
         "Squared stresses of axial, torsion and constant-curvature states (and combinations with rigid-body motion and scaling) on five element directions equal the closed forms of the element's own section properties; the real VonMisesTube/VonMisesWingbox reproduce every entry; FailureExact = vm/sigma - 1; KS is evaluated for N = 1..400 terms, six magnitude patterns up to 1e12 Pa and four rho values: finite, never below the maximum, at most ln N / rho above it.",
         "Stresses compared squared; Exp/Ln uninterpreted in the spec. " + TRUSTED,
         "5 C15, 3.7",
@@ -110,14 +110,14 @@ CHECKS = {
     ),
     "C17": (
         "model_checking",
-        "TLC: KFunc exact rational transcription of the functionals with their defining identities as invariants (240 cases); every state through the real components; random inputs through TotalPerformance (both values of internally_connect_fuelburn); OASLaws.Reexpress on aerostructural / structural models (other unit system); atmosphere consistency and continuity",
+        "TLC: KFunc exact rational transcription of the functionals with their defining identities as invariants (240 cases); every state through the real components; random inputs through TotalPerformance (both values of internally_connect_fuelburn); OASLaws.Reexpress on aerostructural / structural models (other unit system); atmosphere consistency, continuity and component-level histories (one input changed / zeroed on the same instance)",
         "Area-weighted coefficients, L = q S CL, drag build-up, residual = 1 - L/W with W = (W0 + structures + fuel) g n, cg = mass-weighted mean, CM = M/(q S MAC_first), lift normal / drag along the free stream for Pythagorean angles, Breguet through the exponent argument; the real Coeffs, TotalLift, TotalDrag, SumAreas, TotalLiftDrag, Equilibrium, CenterOfGravity, MomentCoefficient, LiftDrag, BreguetRange reproduce the table; the atmosphere group is checked for ideal gas, speed of sound, v = M a, Reynolds number, Sutherland viscosity and continuity on a 50 ft grid.",
         "Atmosphere data carry ~4 digits: consistency to 0.2 % (viscosity 2 %); a dropped digit in the pressure table was found and fixed (aa07cb3). " + TRUSTED,
         "5 C17, 3.7",
     ),
     "C20": (
         "model_checking",
-        "TLC: OASSetup (every malformed variant with <= 2 defects through the staged script; NoSilentAcceptance, LoudRejection, UnknownKeysWarned) and OASTwo (all interleavings of two Problems; Isolation over extracted shared state incl. module-level containers); every terminal state and interleaving replayed on the real API (two pairings, one with iterative linear solvers); multi-section workflow with user-supplied section meshes",
+        "TLC: OASSetup (every malformed variant with <= 2 defects through the staged script; NoSilentAcceptance, LoudRejection, UnknownKeysWarned) and OASTwo (all interleavings of two Problems; Isolation over extracted shared state incl. module-level containers); every terminal state and interleaving replayed on the real API (two pairings, one with iterative linear solvers); multi-section workflow with user-supplied section meshes and per-section t/c; MPhys builders created one after the other; snapshot of every class-level / module-level mutable container of openaerostruct before and after a run",
         "All 69 variants of the documented mesh, surface (per model kind) and multi-section dictionaries are stepped through generate_mesh / group constructors / Problem.setup / run_model in the spec and on the real API: a malformed variant must stop with an exception before any number is produced, unknown keys must be warned about; interleavings of the API calls of an aerodynamic and an aerostructural Problem up to depth 4/5 must leave each Problem bit-identical to the same Problem run alone; admissible configurations must give finite outputs, be repeatable between independent Problems and leave every user array unchanged (SHA-1).",
         "Which of several fatal defects is reported first, and whether a warning precedes an error, is not part of the contract (spec is nondeterministic there); any exception class counts as loud. " + TRUSTED,
         "5 C20, 3.2",
